@@ -4,6 +4,6 @@ CONSTANTS V = 1
           MaxCap = 2
           MaxMsgs = 5
           MaxOps = 2
-          Hops = {1, 8, 9, 300}
+          Hops = {"h1", "h8", "h9", "h255", "h256", "hTop", "hMax"}
 INVARIANTS OutOnce OutOrder BlockedKeep InOnce InOrder MalformedNeverDelivered BufBounded NoLostWakeup PollW PollR
 VIEW View
